@@ -179,8 +179,30 @@ pub fn doc_pub(c: &Value, rng: &mut impl RngCore) -> Value {
     doc(c, &m, true)
 }
 
+/// Reverse the member order of every object that is an element of a list (descriptors, parameters): JSON objects are
+/// unordered, so an entry means the same whichever member comes first.
+fn reverse_list_entries(v: &mut Value, in_list: bool) {
+    match v {
+        Value::Array(a) => a.iter_mut().for_each(|x| reverse_list_entries(x, true)),
+        Value::Object(m) => {
+            if in_list {
+                let mut items: Vec<(String, Value)> = std::mem::take(m).into_iter().collect();
+                items.reverse();
+                for (k, x) in items {
+                    m.insert(k, x);
+                }
+            }
+            m.values_mut().for_each(|x| reverse_list_entries(x, false));
+        }
+        _ => {}
+    }
+}
+
 fn parse_same(c: &Value, m: &Mat) -> (String, bool) {
-    let v = doc(c, m, true);
+    let mut v = doc(c, m, true);
+    if c["order"] == "rev" {
+        reverse_list_entries(&mut v, false);
+    }
     let canon = doc(c, m, false);
     // through text, as a caller would hand it over
     let vtext = serde_json::to_string(&v).unwrap();
@@ -205,7 +227,7 @@ fn parse_same(c: &Value, m: &Mat) -> (String, bool) {
 }
 
 fn base() -> Value {
-    json!({"kind": "", "case": {"req": "", "bin": "", "timeout": "", "alg": "", "enum": "", "member": "", "opt": ""}, "crash": false,
+    json!({"kind": "", "case": {"req": "", "bin": "", "timeout": "", "alg": "", "enum": "", "member": "", "opt": "", "order": ""}, "crash": false,
            "parse": "none", "same": false, "bytes": [], "enc": [], "decok": false, "ownok": false, "small": false,
            "extra": [], "unknown": [], "got": [], "valuesok": false})
 }
@@ -279,7 +301,9 @@ pub fn main(args: &Args) {
         out.emit(e);
     }
     // collected client data: key order with extras (nested values, any key order) and unknown members
-    let pool = ["androidPackageName", "zeta", "alpha", "mid", "payment", "Type", "challenge2", "a", "z", "origin2"];
+    // (member names of later WebAuthn levels and of other platforms are ordinary unknown members for this purpose)
+    let pool = ["androidPackageName", "zeta", "alpha", "mid", "payment", "Type", "challenge2", "a", "z", "origin2",
+                "topOrigin", "tokenBinding", "other_keys_can_be_added_here"];
     for _ in 0..args.num("cd", 400) {
         let mut keys: Vec<&str> = pool.to_vec();
         keys.shuffle(&mut rng);
@@ -304,14 +328,14 @@ pub fn main(args: &Args) {
         for k in &unknown_keys {
             unknown.insert(k.clone(), val(&mut rng));
         }
-        let cd = CollectedClientData::<Value> {
-            ty: if rng.gen_bool(0.5) { ClientDataType::Create } else { ClientDataType::Get },
-            challenge: "Y2hhbGxlbmdl".into(),
-            origin: "https://example.com".into(),
-            cross_origin: *[None, Some(false), Some(true)].choose(&mut rng).unwrap(),
-            extra_data: Value::Object(extra.clone()),
-            unknown_keys: unknown.clone(),
-        };
+        // (built by parsing and then setting the public fields, so that a member added to the struct does not stop
+        // the harness from compiling)
+        let mut cd: CollectedClientData<Value> =
+            serde_json::from_value(json!({"type": "webauthn.get", "challenge": "Y2hhbGxlbmdl", "origin": "https://example.com"})).expect("client data");
+        cd.ty = if rng.gen_bool(0.5) { ClientDataType::Create } else { ClientDataType::Get };
+        cd.cross_origin = *[None, Some(false), Some(true)].choose(&mut rng).unwrap();
+        cd.extra_data = Value::Object(extra.clone());
+        cd.unknown_keys = unknown.clone();
         let mut e = base();
         e["kind"] = json!("cd");
         e["extra"] = json!(extra_keys);
@@ -324,6 +348,38 @@ pub fn main(args: &Args) {
                 if let Value::Object(m) = &parsed {
                     e["got"] = json!(m.keys().collect::<Vec<_>>());
                     e["valuesok"] = json!(extra.iter().all(|(k, v)| m.get(k) == Some(v)) && unknown.iter().all(|(k, v)| m.get(k) == Some(v)));
+                }
+            }
+        }
+        out.emit(e);
+        // the same for a document that is parsed first: the four standard members anywhere among unknown ones
+        let mut doc: Vec<(String, Value)> = vec![
+            ("type".into(), json!("webauthn.create")),
+            ("challenge".into(), json!("Y2hhbGxlbmdl")),
+            ("origin".into(), json!("https://example.com")),
+            ("crossOrigin".into(), json!(rng.gen_bool(0.5))),
+        ];
+        for k in &unknown_keys {
+            doc.push((k.clone(), val(&mut rng)));
+        }
+        for k in &extra_keys {
+            doc.push((k.clone(), val(&mut rng)));
+        }
+        doc.shuffle(&mut rng);
+        let text = format!("{{{}}}", doc.iter().map(|(k, v)| format!("{}:{}", Value::String(k.clone()), v)).collect::<Vec<_>>().join(","));
+        let others: Vec<String> = doc.iter().map(|(k, _)| k.clone()).filter(|k| !["type", "challenge", "origin", "crossOrigin"].contains(&k.as_str())).collect();
+        let mut e = base();
+        e["kind"] = json!("cd");
+        e["extra"] = json!([]);
+        e["unknown"] = json!(others);
+        match util::catch(|| serde_json::from_str::<CollectedClientData<()>>(&text).map(|cd| serde_json::to_string(&cd))) {
+            Err(_) => e["crash"] = json!(true),
+            Ok(Err(_)) | Ok(Ok(Err(_))) => e["got"] = json!(["(parse or serialisation error)"]),
+            Ok(Ok(Ok(back))) => {
+                let parsed: Value = serde_json::from_str(&back).unwrap_or(Value::Null);
+                if let Value::Object(m) = &parsed {
+                    e["got"] = json!(m.keys().collect::<Vec<_>>());
+                    e["valuesok"] = json!(doc.iter().all(|(k, v)| m.get(k) == Some(v)));
                 }
             }
         }
